@@ -185,14 +185,25 @@ func faultsCmd(args []string) {
 			fmt.Fprintln(os.Stderr, "abdrive:", err)
 			os.Exit(2)
 		}
-		var res [][]Line
-		for _, sc := range scs {
-			ls, err := scriptedFaults(sc)
+		res := make([][]Line, len(scs))
+		errs := make([]error, len(scs))
+		var wg sync.WaitGroup
+		sem := make(chan struct{}, *workers)
+		for i := range scs {
+			wg.Add(1)
+			sem <- struct{}{}
+			go func(i int) {
+				defer wg.Done()
+				defer func() { <-sem }()
+				res[i], errs[i] = scriptedFaults(scs[i])
+			}(i)
+		}
+		wg.Wait()
+		for _, err := range errs {
 			if err != nil {
 				fmt.Fprintln(os.Stderr, "abdrive:", err)
 				os.Exit(2)
 			}
-			res = append(res, ls)
 		}
 		if err := writeTraces(*out, res); err != nil {
 			fmt.Fprintln(os.Stderr, "abdrive:", err)
